@@ -164,13 +164,13 @@ let () =
       let books : (int, book) Hashtbl.t = Hashtbl.create 8 in
       let book_of k = (match Hashtbl.find_opt books k with Some b -> b | None -> let b = new_book () in Hashtbl.replace books k b; b) in
       (* a quiet SETDATA / REMOVEDATA of session kk: the mirror statement stays applicable for the sessions none of whose
-         subscription paths reaches below kk's session node (quiet_frame); the sender itself and everybody who can see it are out *)
+         subscription paths reaches below kk's session node (quiet_frame) and for the sender itself (only its own subtree
+         changes); everybody who can see the sender's subtree is out *)
       let reaches (canon_pat : string) (kk : int) : bool =
         (match String.split_on_char '/' canon_pat with
          | c0 :: c1 :: _ -> clause_match c0 "H" && clause_match c1 (string_of_int kk)
          | _ -> false) in
       let quiet_by (kk : int) : unit =
-        Hashtbl.replace tainted kk ();
         Hashtbl.iter (fun id (bk : book) ->
           if id <> kk && Hashtbl.fold (fun pat _ acc -> acc || reaches pat kk) bk.flts false then Hashtbl.replace tainted id ()) books in
       let host = intern "H" in
